@@ -3,7 +3,7 @@
     Proof file. *)
 From Coq Require Import ZArith List Bool Arith Lia.
 From SP Require Import Design.Flat Design.Layout Comb.CombModel Comb.CombSpec Random.Enum Random.Frag
-  Random.RunLemmas Random.FragPerm Random.Frag0Enum Random.Frag0Decode.
+  Random.RunLemmas Random.FragPerm Random.KeysCount Random.Frag0Enum Random.Frag0Decode.
 From SP Require Comb.PermProofs.
 From SP Require Export Random.ListFacts.
 Import ListNotations.
@@ -15,6 +15,7 @@ Section F0K.
 Variable fb : flat.
 Hypothesis HF : frag2 fb = true.
 Variables m lm : memo_t.
+Variables cn lcn : Z.
 Hypothesis HM : memos_ok fb m lm.
 
 Local Notation Hq := (f0_q_pos fb HF).
@@ -25,11 +26,12 @@ Local Notation T := (fl_trials fb).
 Local Notation lo := (f0_leftover fb).
 Local Notation inst := (f0_instances fb).
 Local Notation ubi := (f0_ubi fb).
-Local Notation en := (f0_enum fb m lm).
+Local Notation en := (f0_enum fb m lm cn lcn).
 
 Definition f0_comps (tc : nat) : list comp :=
-  flat_map (fun pi => map (fun ind => (Z.of_nat pi, zeros tc, ind))
-                          (ranges_product (f0_inds fb (Z.of_nat tc))))
+  flat_map (fun pi => flat_map (fun src => map (fun ind => (Z.of_nat pi, src, ind))
+                                               (ranges_product (f0_inds fb (Z.of_nat tc))))
+                               (ranges_product (src_shapes fb tc (Z.of_nat pi))))
            (seq 0 (Z.to_nat (f0_N fb tc))).
 
 Lemma f0_N_nonneg tc : tc <= C -> (0 <= f0_N fb tc)%Z.
@@ -53,33 +55,30 @@ Lemma components_f0 tc memo : round_ok tc memo ->
 Proof.
   intros (Hle & Hmemo & Hdef). unfold components_for. cbn [sh_cross f0_shape sh_combs sh_inds].
   assert (H : rmap (fun pi : nat =>
-                      src_shapes <-- (if full_round en (Z.of_nat tc) then ROk (map (fun _ : asg => 1%Z) inst)
+                      src_shapes <-- (if full_round en (Z.of_nat tc) then ROk (f0_combs fb)
                                       else perm <-- jth_permutation_indices (en_base en) (q_instances (en_base en)) (Z.of_nat tc) (Z.of_nat pi) memo ;;;
-                                           rmap (zindex (map (fun _ : asg => 1%Z) inst)) perm) ;;;
+                                           rmap (zindex (f0_combs fb)) perm) ;;;
                       ROk (flat_map (fun src => map (fun ind => (Z.of_nat pi, src, ind)) (ranges_product (f0_inds fb (Z.of_nat tc))))
                                     (ranges_product src_shapes)))
                    (seq 0 (Z.to_nat (f0_N fb tc))) =
-              ROk (map (fun pi => map (fun ind => (Z.of_nat pi, zeros tc, ind))
-                                      (ranges_product (f0_inds fb (Z.of_nat tc))))
+              ROk (map (fun pi => flat_map (fun src => map (fun ind => (Z.of_nat pi, src, ind))
+                                                           (ranges_product (f0_inds fb (Z.of_nat tc))))
+                                           (ranges_product (src_shapes fb tc (Z.of_nat pi))))
                        (seq 0 (Z.to_nat (f0_N fb tc))))).
   { apply rmap_ok_map. intros pi Hpi. apply in_seq in Hpi.
-    rewrite (full_round_f0 fb HF m lm HM). destruct ((tc =? q) && f0_unw fb) eqn:E.
-    - apply andb_prop in E. destruct E as [E _]. apply Nat.eqb_eq in E.
-      cbn [rbind]. rewrite ranges_product_ones. rewrite (f0_instances_length fb HF). cbn [flat_map]. rewrite app_nil_r.
-      rewrite E. reflexivity.
+    rewrite (full_round_f0 fb HF m lm cn lcn HM). unfold src_shapes. destruct (full fb tc) eqn:E.
+    - cbn [rbind]. reflexivity.
     - unfold q_instances. cbn [en_base f0_enum eb_instances f0_base].
       rewrite (f0_instances_length fb HF).
       assert (Hr : (0 <= Z.of_nat pi < f0_N fb tc)%Z) by (pose proof (f0_N_nonneg tc Hle); lia).
       pose proof (Hdef _ Hr) as Hd. unfold perm_def in Hd. rewrite Hd. cbn [rbind].
       destruct (perm_of_spec fb HF Hq tc (Z.of_nat pi) Hle Hr (perm_def_U fb HF tc memo _ Hmemo Hr (Hdef _ Hr)))
         as (_ & Hpl & Hpb & _).
-      assert (Hz : rmap (zindex (map (fun _ : asg => 1%Z) inst)) (perm_of fb tc (Z.of_nat pi)) =
-                   ROk (map (fun _ => 1%Z) (perm_of fb tc (Z.of_nat pi)))).
+      assert (Hz : rmap (zindex (f0_combs fb)) (perm_of fb tc (Z.of_nat pi)) =
+                   ROk (map (fun p => nth (Z.to_nat p) (f0_combs fb) 0%Z) (perm_of fb tc (Z.of_nat pi)))).
       { apply rmap_ok_map. intros p Hp'. rewrite Forall_forall in Hpb. specialize (Hpb p Hp').
-        apply zindex_some; [lia|].
-        apply (map_nth_error (fun _ : asg => 1%Z) (Z.to_nat p) inst (d := nth (Z.to_nat p) inst [])).
-        apply nth_error_nth_ok. rewrite (f0_instances_length fb HF). lia. }
-      rewrite Hz. cbn [rbind]. rewrite ranges_product_ones, Hpl. cbn [flat_map]. rewrite app_nil_r. reflexivity. }
+        apply zindex_some; [lia|]. apply nth_error_nth_ok. rewrite (combs_length fb HF Hq). lia. }
+      rewrite Hz. cbn [rbind]. reflexivity. }
   rewrite H. cbn [rbind]. unfold f0_comps. rewrite flat_map_concat_map. reflexivity.
 Qed.
 
@@ -89,46 +88,31 @@ Proof.
   apply Z.pow_nonneg. lia.
 Qed.
 
+Lemma inds_Forall2 tc c2 :
+  Forall2 (fun s x => (0 <= x < s)%Z) (f0_inds fb (Z.of_nat tc)) c2 <->
+  Forall2 (fun f idx => (0 <= idx < Z.of_nat (length (f0_L fb f)) ^ Z.of_nat tc)%Z) ubi c2.
+Proof.
+  unfold f0_inds. split.
+  - intros Hind. remember (map (fun f => (Z.of_nat (length (f0_L fb f)) ^ Z.of_nat tc)%Z) ubi) as ss eqn:Es.
+    revert Es. generalize ubi. induction Hind as [|s x ss' xs' Hx Hrest IH]; intros us Es; destruct us; try discriminate; [constructor|].
+    cbn [map] in Es. inversion Es; subst. constructor; [exact Hx | apply IH; reflexivity].
+  - intros Hc2. induction Hc2 as [|f x us xs Hx Hrest IH]; cbn [map]; constructor; assumption.
+Qed.
+
 Lemma f0_comps_In tc memo cp : round_ok tc memo -> In cp (f0_comps tc) <-> comp_ok fb tc cp.
 Proof.
   intros (Hle & Hmemo & Hdef). unfold f0_comps, comp_ok. destruct cp as [[c0 c1] c2]. rewrite in_flat_map. split.
-  - intros [pi [Hpi Hin]]. apply in_seq in Hpi. apply in_map_iff in Hin. destruct Hin as [ind [E Hind]].
-    inversion E; subst. apply ranges_product_In in Hind.
+  - intros [pi [Hpi Hin]]. apply in_seq in Hpi. apply in_flat_map in Hin. destruct Hin as [src [Hsrc Hin]].
+    apply in_map_iff in Hin. destruct Hin as [ind [E Hind]].
+    inversion E; subst. apply ranges_product_In in Hind. apply ranges_product_In in Hsrc.
     assert (Hr : (0 <= Z.of_nat pi < f0_N fb tc)%Z) by lia.
-    split; [exact Hr|]. split; [apply (perm_def_U fb HF tc memo _ Hmemo Hr (Hdef _ Hr))|]. split; [reflexivity|].
-    unfold f0_inds in Hind. clear - Hind.
-    remember (map (fun f => (Z.of_nat (length (f0_L fb f)) ^ Z.of_nat tc)%Z) ubi) as ss eqn:Es.
-    revert Es. generalize ubi. induction Hind as [|s x ss' xs' Hx Hrest IH]; intros us Es; destruct us; try discriminate; [constructor|].
-    cbn [map] in Es. inversion Es; subst. constructor; [exact Hx | apply IH; reflexivity].
+    split; [exact Hr|]. split; [apply (perm_def_U fb HF tc memo _ Hmemo Hr (Hdef _ Hr))|]. split; [exact Hsrc|].
+    apply inds_Forall2. exact Hind.
   - intros (Hc0 & _ & Hc1 & Hc2). exists (Z.to_nat c0). split; [apply in_seq; lia|].
-    apply in_map_iff. exists c2. split; [rewrite Z2Nat.id by lia; subst c1; reflexivity|].
-    apply ranges_product_In. unfold f0_inds. clear - Hc2.
-    induction Hc2 as [|f x us xs Hx Hrest IH]; cbn [map]; constructor; assumption.
+    rewrite Z2Nat.id by lia. apply in_flat_map. exists c1. split; [apply ranges_product_In; exact Hc1|].
+    apply in_map_iff. exists c2. split; [reflexivity|].
+    apply ranges_product_In. apply inds_Forall2. exact Hc2.
 Qed.
-
-Lemma f0_comps_NoDup tc : NoDup (f0_comps tc).
-Proof.
-  unfold f0_comps. generalize (Z.to_nat (f0_N fb tc)) as k. intros k.
-  assert (G : forall a, NoDup (flat_map (fun pi => map (fun ind => (Z.of_nat pi, zeros tc, ind))
-                                                       (ranges_product (f0_inds fb (Z.of_nat tc)))) (seq a k))).
-  { induction k as [|k IH]; intros a; [constructor|]. cbn [seq flat_map].
-    apply NoDup_app_intro; [| apply IH |].
-    - apply FinFun.Injective_map_NoDup; [intros x y E; inversion E; reflexivity | apply ranges_product_NoDup].
-    - intros cp Hcp Hin. apply in_map_iff in Hcp. destruct Hcp as [ind [E _]]. subst cp.
-      apply in_flat_map in Hin. destruct Hin as [pi [Hpi Hin]]. apply in_seq in Hpi.
-      apply in_map_iff in Hin. destruct Hin as [ind' [E _]]. inversion E. lia. }
-  apply G.
-Qed.
-
-Lemma f0_comps_length tc : tc <= C ->
-  Z.of_nat (length (f0_comps tc)) = (f0_N fb tc * prodZl (f0_inds fb (Z.of_nat tc)))%Z.
-Proof.
-  intros Hle. unfold f0_comps. rewrite <- (ranges_product_length _ (f0_inds_nonneg tc)).
-  rewrite (flat_map_length_const _ (length (ranges_product (f0_inds fb (Z.of_nat tc))))).
-  - rewrite seq_length, Nat2Z.inj_mul, Z2Nat.id by (apply f0_N_nonneg; exact Hle). reflexivity.
-  - intros pi _. apply map_length.
-Qed.
-
 
 (** * All keys *)
 Definition f0_lefts : list (option comp) := if lo =? 0 then [None] else map Some (f0_comps lo).
@@ -175,34 +159,15 @@ Proof.
       * rewrite Hleft. cbn. left. reflexivity.
 Qed.
 
-Lemma f0_lefts_NoDup : NoDup f0_lefts.
-Proof.
-  unfold f0_lefts. destruct (lo =? 0); [constructor; [intros [] | constructor]|].
-  apply FinFun.Injective_map_NoDup; [intros a b E; inversion E; reflexivity | apply f0_comps_NoDup].
-Qed.
+(** without repetition, [possible_keys] of them (the general count, KeysCount.v) *)
+Lemma f0_rounds_nonneg : (0 <= rounds_per_run fb en)%Z.
+Proof. rewrite f0_rounds_per_run. lia. Qed.
 
-Lemma f0_keys_NoDup : NoDup f0_keys.
-Proof.
-  unfold f0_keys.
-  assert (G : forall W : list (list comp), NoDup W ->
-              NoDup (flat_map (fun rs => map (fun l => {| k_pre := 0%Z; k_rounds := rs; k_left := l |}) f0_lefts) W)).
-  { induction 1 as [|rs W Hrs Hnd IH]; cbn [flat_map]; [constructor|].
-    apply NoDup_app_intro; [|exact IH|].
-    - apply FinFun.Injective_map_NoDup; [intros a b E; inversion E; reflexivity | apply f0_lefts_NoDup].
-    - intros k Hk Hin. apply in_map_iff in Hk. destruct Hk as [l [E _]]. subst k.
-      apply in_flat_map in Hin. destruct Hin as [rs' [Hrs' Hin]]. apply in_map_iff in Hin.
-      destruct Hin as [l' [E _]]. inversion E; subst. contradiction. }
-  apply G. apply words_NoDup. apply f0_comps_NoDup.
-Qed.
+Lemma f0_keys_NoDup : make_enumerator fb = ROk en -> NoDup f0_keys.
+Proof. intros Hen. apply (keys_count_general fb en f0_keys Hen all_keys_f0 f0_rounds_nonneg). Qed.
 
-Lemma f0_keys_length : Z.of_nat (length f0_keys) = possible_keys fb en.
-Proof.
-  unfold possible_keys. rewrite f0_rounds_per_run. cbn [en_pcount en_count en_lcount f0_enum].
-  unfold f0_keys. rewrite (flat_map_length_const _ (length f0_lefts)) by (intros rs _; apply map_length).
-  rewrite words_length, Nat2Z.inj_mul, Nat2Z.inj_pow. rewrite (f0_comps_length C (le_n _)).
-  rewrite Z.mul_1_l. f_equal. unfold f0_lefts. destruct (lo =? 0); [reflexivity|].
-  rewrite map_length. apply f0_comps_length. apply Nat.lt_le_incl. apply (f0_leftover_lt fb HF).
-Qed.
+Lemma f0_keys_length : make_enumerator fb = ROk en -> Z.of_nat (length f0_keys) = possible_keys fb en.
+Proof. intros Hen. apply (keys_count_general fb en f0_keys Hen all_keys_f0 f0_rounds_nonneg). Qed.
 
 (** the keys [RandomGen.__sample] draws from *)
 Lemma sample_keys_f0 : make_enumerator fb = ROk en ->
